@@ -2,6 +2,7 @@ package main
 
 import (
 	"verif/props/c01"
+	"verif/props/c02"
 	"verif/props/c03"
 	"verif/props/c04"
 	"verif/props/c06"
@@ -14,10 +15,12 @@ import (
 	"verif/props/c16"
 	"verif/props/c18"
 	"verif/props/c19"
+	"verif/props/c20"
 )
 
 func init() {
 	props["C01"] = prop{c01.Run, c01.Replay}
+	props["C02"] = prop{c02.Run, c02.Replay}
 	props["C03"] = prop{c03.Run, c03.Replay}
 	props["C04"] = prop{c04.Run, c04.Replay}
 	props["C06"] = prop{c06.Run, c06.Replay}
@@ -30,4 +33,5 @@ func init() {
 	props["C16"] = prop{c16.Run, c16.Replay}
 	props["C18"] = prop{c18.Run, c18.Replay}
 	props["C19"] = prop{c19.Run, c19.Replay}
+	props["C20"] = prop{c20.Run, c20.Replay}
 }
